@@ -1213,6 +1213,10 @@ def ext_attr(I, mod, name, node):
                         I2, f"Path.{m}", m, {"self": po}, tr[f"Path.{m}"]))(meth))
             return po
         return PBuiltin("Path", mkpath)
+    if base == "string" and name in ("ascii_uppercase", "ascii_lowercase", "digits", "ascii_letters"):
+        import string as _string
+
+        return getattr(_string, name)
     if base == "pprint" and name in ("pformat",):
         from .interp import FStr
 
